@@ -5,5 +5,7 @@ CONSTANTS
   Deps <- DepsDef
   Roots <- Roots2
   SubscribeLate = FALSE
+  MaxAbandon = 0
+  SilentAbandon = FALSE
 PROPERTY Progress
 CHECK_DEADLOCK FALSE
